@@ -264,6 +264,10 @@ BEH_RE = re.compile(r'<<"BEHAVIOUR", "(.*)">>\s*$')
 def simulate_actions(module, base_cfg, num, depth, sd, overrides=None, tag="sim", timeout=600, siblings=2):
     """TLC's simulator chooses behaviours of the bounded instance (SimSpec carries the action
     history); returns distinct action sequences of length `depth`-1."""
+    if module == "MC_StoreSim.tla":
+        # two-phase sampling (kind, then instance): two levels per action, one behaviour per run
+        depth = 2 * depth - 1
+        num = 2 * num
     cfg = write_cfg(tag, base_cfg, overrides=overrides, drop_invariants=True,
                     add_lines=["INVARIANT ExportHist"])
     text = open(os.path.join(SPEC, cfg)).read()
